@@ -214,7 +214,10 @@ class StructGen:
         ends = view.ends(e)
         which = rng.choice([1, 2])
         x = self.pick_vertex(rng, view, prefer=ends)
-        return {"op": "set_end", "e": e, "which": which, "x": x}
+        op = {"op": "set_end", "e": e, "which": which, "x": x}
+        if self.cfg.get("p_item_syntax") and rng.random() < self.cfg["p_item_syntax"]:
+            op["via"] = "item"
+        return op
 
     def g_link(self, rng, view, namer):
         if not self.room_for_links(view):
